@@ -590,7 +590,8 @@ class Mesh:
                             vert.tex_u, vert.tex_v,
                         )
                     )
-                    if len(vert.links) > 1:
+                    # A single link is implied by the bone index, unless it has a weight of its own.
+                    if len(vert.links) > 1 or vert.links[0][1] != 1.0:
                         file.write(b' %i' % (len(vert.links), ))
                         for bone, weight in vert.links:
                             file.write(b' %i %.6f' % (bone_indexes[bone], weight))
